@@ -1,26 +1,26 @@
 SPECIFICATION Spec
 CONSTANTS
-  Proc = {p1, p2}
+  Proc = {p1}
   BackupProcs = {p1}
-  PruneProcs = {p2}
+  PruneProcs = {p1}
   Version = {"v1", "v2"}
   Needs <- NeedsB
-  KD = 2
-  MaxTime = 5
-  MaxPacks = 4
-  MaxCmds = 4
-  Concurrent = TRUE
-  AllowInstant = FALSE
+  KD = 1
+  MaxTime = 1
+  MaxPacks = 3
+  MaxCmds = 2
+  Concurrent = FALSE
+  AllowInstant = TRUE
   AppendOnly = FALSE
   AllowDamage = FALSE
-  AllowCrash = FALSE
+  AllowCrash = TRUE
   AllowEarly = FALSE
   TickInPrune = TRUE
   UntypedDedup = FALSE
   DeriveFrom <- NoDerive
   DeriveForget = FALSE
-  PartialFlush = FALSE
+  PartialFlush = TRUE
   SnapFirst = FALSE
 VIEW View
-INVARIANTS TypeOK AllRecoverable AfterCleanPrune
+INVARIANTS TypeOK AllReadable BroughtBack NoDangling
 CHECK_DEADLOCK FALSE
